@@ -107,6 +107,10 @@ func c05Run(j c05Job) *jobReport {
 	seen := map[string]bool{}
 	curOp := -1
 	vos.ResetSteps()
+	// an append that crosses a page boundary reaches the disk page by page: a process killed inside the
+	// system call leaves the file ending at the boundary (step kind "write-partial")
+	vos.SetPageTear(true, nil)
+	defer vos.SetPageTear(false, nil)
 	vos.SetObserver(func(step int, op, path string) {
 		if !strings.HasPrefix(path, dir) {
 			return
@@ -117,6 +121,9 @@ func c05Run(j c05Job) *jobReport {
 		// identical bytes mean something different later in the history (an empty report log is fine before
 		// the first report and a loss after it): deduplicate per operation in flight only
 		h := fmt.Sprintf("%s@%d", imageHash(files), curOp)
+		if os.Getenv("VERIF_C05_TRACE") != "" {
+			fmt.Fprintf(os.Stderr, "step %d %s %s op=%d sizes=%v\n", step, op, filepath.Base(path), curOp, fileSizes(files))
+		}
 		rep.Extra["fs_steps"]++
 		if seen[h] {
 			return
@@ -292,6 +299,27 @@ func recoverImage(img crashImage, temp keyPair, allowed map[string]bool) (sig, w
 		if c := sw.authorize(ea, signer.Priv); c != 200 {
 			return "recovered-server-ignores-its-gca", fmt.Sprintf("authorization signed by the registered GCA answered %d", c)
 		}
+		var ids []int
+		for id := range snap.Equipment {
+			ids = append(ids, int(id))
+		}
+		sort.Ints(ids)
+		if len(ids) > 0 {
+			if dg := signedReportForRecovered(snap, uint32(ids[0])); dg != nil {
+				sw.S.VerifInjectDatagram(dg)
+			}
+		}
+	}
+	// what the recovered server writes next must leave a directory that starts again (appends after a repaired
+	// tail must be aligned), with everything it held after recovery
+	before, _ := snapPersistKey(sw.S.VerifSnapshot())
+	var rerr error
+	if p := safely(func() { rerr = sw.Restart() }); p != "" || rerr != nil {
+		abandon = true
+		return "recovered-server-does-not-restart", fmt.Sprint(firstLine(p), rerr)
+	}
+	if after, kerr := snapPersistKey(sw.S.VerifSnapshot()); kerr != nil || after != before {
+		return "recovered-server-loses-state-on-restart", firstDiff(after, before)
 	}
 	return "", ""
 }
@@ -351,8 +379,33 @@ func init() {
 		jobs = append(jobs, c05Job{append(append([]string{}, fleet...), "auth:4:kD:1000:G1", "auth:5:kE:1000:G1", "rep:3:kC:now:500", "rot", "rot", "restart")})
 		jobs = append(jobs, c05Job{append(append([]string{}, fleet...), "rot", "auth:2:kX:1000:G1", "rep:3:kC:now:500", "rot")})
 		jobs = append(jobs, c05Job{edgeIDs(append(append([]string{}, fleet...), "rep:3:kC:now:500", "rep:1:kA:now:500", "auth:3:kX:1000:G1", "auth:1:kX:1000:G1", "restart", "rot"))})
+		// long logs: the 52nd report (80-byte records) and the 28th authorization (148-byte records) are the first
+		// records of their files that straddle a page boundary
+		{
+			h := []string{"reg:G1:temp", "auth:1:kA:1000:G1"}
+			for i := 51; i >= 1; i-- {
+				h = append(h, fmt.Sprintf("rep:1:kA:now-%d:500", i))
+			}
+			jobs = append(jobs, c05Job{append(h, "rep:1:kA:now:500", "restart")})
+			h = []string{"reg:G1:temp"}
+			for i := 0; i < 27; i++ {
+				h = append(h, fmt.Sprintf("auth:%d:kL%d:1000:G1", 10+i, i))
+			}
+			jobs = append(jobs, c05Job{append(h, "auth:1:kA:1000:G1", "rep:1:kA:now:500", "restart")})
+		}
 		run.Coverage["histories"] = len(jobs)
-		run.Assumption("process-crash model: completed system calls persist, memory is lost; ioutil.WriteFile is performed as open-truncate, write, close so that 'present but empty' is a step boundary; torn writes inside one write call and SIGKILL at random instants are out of scope")
-		return runJobCheck(run, "c05", jobs, "every history of length <= N over {register, authorize, conflicting authorize, first report, second report (ban), rotate, restart} after a first start; after every mutating file-system step of the run the directory is copied; every distinct crash image is recovered by the real constructor and compared with the model of the durable prefix (completed operations in, the in-flight operation in or out, nothing partial); evaluations = crash images recovered; distinct = (history, operation in flight) classes")
+		run.Assumption("process-crash model: completed system calls persist, memory is lost; ioutil.WriteFile is performed as open-truncate, write, close so that 'present but empty' is a step boundary; a write that crosses a 4096-byte boundary of the file persists page by page (the kernel honours a fatal signal between two pages: measured on this kernel, a process killed inside one large write leaves a file ending on a page multiple), tears inside a page and loss of completed writes (power failure) are out of scope")
+		return runJobCheck(run, "c05", jobs, "every history of length <= N over {register, authorize, conflicting authorize, first report, second report (ban), rotate, restart} after a first start, fleets of 3-5 devices, and logs long enough for a report and an authorization record to straddle a page boundary; after every mutating file-system step of the run (each page of a write that crosses a page boundary is a step) the directory is copied; every distinct crash image is recovered by the real constructor and compared with the model of the durable prefix (completed operations in, the in-flight operation in or out, nothing partial); evaluations = crash images recovered; distinct = (history, operation in flight) classes")
 	}
+}
+
+// signedReportForRecovered builds a valid report of a device the recovered server holds (if the harness knows its key).
+func signedReportForRecovered(snap server.VerifSnapshot, id uint32) []byte {
+	ea := snap.Equipment[id]
+	for _, n := range []string{"kA", "kB", "kC", "kD", "kE", "kRecovered"} {
+		if key(n).Pub == ea.PublicKey {
+			return signedReport(id, 101, 77, key(n).Priv)
+		}
+	}
+	return nil
 }
